@@ -134,7 +134,7 @@ impl GtSystems {
     }
 }
 
-pub fn parse_systems(doc: &roxmltree::Document) -> GtSystems {
+pub fn parse_systems(doc: &roxmltree::Document) -> Result<GtSystems, Error> {
     // Sistemas GT
     let gt_systems_str = doc
         .descendants()
@@ -142,5 +142,5 @@ pub fn parse_systems(doc: &roxmltree::Document) -> GtSystems {
         .and_then(|e| e.text())
         .unwrap_or("")
         .trim();
-    GtSystems::new(gt_systems_str).unwrap()
+    GtSystems::new(gt_systems_str)
 }
